@@ -217,8 +217,12 @@ def update_resource_class(req):  # noqa
     context = req.environ['placement.context']
     context.can(policies.UPDATE)
 
-    # Use JSON validation to validation resource class name.
-    util.extract_json('{"name": "%s"}' % name, schema.PUT_RC_SCHEMA_V1_2)
+    # Use JSON validation to validation resource class name. The document is
+    # built by the JSON encoder, not by pasting the name into JSON text: a
+    # name containing JSON escapes (CUSTOM_\u0041) would otherwise be
+    # validated as what the escapes decode to and stored as it was given.
+    util.extract_json(jsonutils.dumps({'name': name}),
+                      schema.PUT_RC_SCHEMA_V1_2)
 
     status = 204
     try:
